@@ -592,6 +592,22 @@ def twins(repo):
     A(text_twin('twin-offline-once-ifexp', OFF_D, '            out_sample = max(i, prev_out)\n            prev_out = out_sample\n            sample_return.append(out_sample)\n        return sample_return\n\n\n    def visitHistorically', '            out_sample = i if i > prev_out else prev_out\n            prev_out = out_sample\n            sample_return.append(out_sample)\n        return sample_return\n\n\n    def visitHistorically'))
     A({'id': 'twin-reformat-discrete-interpreter', 'kind': 'twin', 'props': list(ALL), 'edits': [('rtamt/semantics/discrete_time_interpreter.py', _reformat)]})
     out += rewrites()[0]
+    out += agent_twins()
+    return out
+
+
+def agent_twins():
+    """twins/<area>-Rxx/patch.diff: behaviour-preserving refactorings written by independent sub-agents (round 11), each verified there by the pinned
+    suite and a differential test.  Those that tools/run_twins.py found silent (twins/RESULTS.json) must stay silent; the others are listed in DESIGN.md
+    as rewrites the checks do not read yet (exit 2) -- they are not part of the catalogue, so that the self-test does not bless an alarm"""
+    out = []
+    try:
+        res = json.load(open(os.path.join(VERIF, 'twins', 'RESULTS.json')))
+    except Exception:
+        return out
+    for name, r in sorted(res.items()):
+        if r.get('silent'):
+            out.append({'id': 'twin-agent-%s' % name, 'kind': 'twin', 'props': list(ALL), 'patch': os.path.join(VERIF, 'twins', name, 'patch.diff')})
     return out
 
 
